@@ -254,6 +254,25 @@ def impl_fn(case, ref, est, rel):
             "n": int(se.num_poses), "title": res.info["title"], "label": res.info["label"]}
 
 
+class WrongRefusal(Exception):
+    pass
+
+
+def associate_or_wrong_refusal(tr, te, max_diff, offset):
+    """evo's own association (property C05), but a SyncException is only accepted as a legitimate refusal when a plain
+    numpy comparison of all stamp pairs confirms that nothing lies within max_diff (with a margin for the boundary)"""
+    from evo.core import sync
+    d = np.abs(np.asarray(tr.timestamps)[:, None] - (np.asarray(te.timestamps)[None, :] + offset))
+    possible = bool((d <= max_diff * (1 - 1e-6)).any())
+    try:
+        return sync.associate_trajectories(tr, te, max_diff, offset)
+    except sync.SyncException as e:
+        if possible:
+            raise WrongRefusal("time association refused (%s) although %d stamp pairs lie within max_diff = %r after the offset %r"
+                               % (str(e)[:60], int((d <= max_diff * (1 - 1e-6)).sum()), max_diff, offset))
+        raise
+
+
 def impl_cli(case, ref, est):
     from evo import main_ape
     from evo.core import sync
@@ -320,11 +339,13 @@ def impl_cli(case, ref, est):
             if fmt != "kitti":
                 if o["t_start"] or o["t_end"]:
                     tr.reduce_to_time_range(o["t_start"], o["t_end"])
-                tr, te = sync.associate_trajectories(tr, te, o["t_max_diff"], o["t_offset"])
+                tr, te = associate_or_wrong_refusal(tr, te, o["t_max_diff"], o["t_offset"])
             tr, te = _independent_processing(case, tr, te)
             return tr, te
         try:
             tr, te = indep()
+        except WrongRefusal as e2:
+            return {"wrong_refusal": str(e2)}
         except Exception as e2:  # noqa
             if refusal is not None and type(e2) is type(refusal):
                 return {"both_refused": type(e2).__name__}
@@ -340,6 +361,9 @@ def impl_cli(case, ref, est):
                "n": int(se.num_poses), "title": res.info["title"], "names": names}
         if fmt != "kitti":
             out["timestamps_ok"] = bool(np.array_equal(res.np_arrays["timestamps"], te.timestamps))
+            if len(sr.timestamps) == len(se.timestamps) and len(sr.timestamps):
+                # every stored pair must be a legitimate association: |t_ref - (t_est + t_offset)| <= t_max_diff
+                out["pair_dt"] = hexf(float(np.abs(np.asarray(sr.timestamps) - (np.asarray(se.timestamps) + o["t_offset"])).max()))
         return out
     finally:
         shutil.rmtree(d, ignore_errors=True)
@@ -411,6 +435,8 @@ def judge(case, val, out):
     # ape_fn / ape_cli
     if "both_refused" in out:
         return None
+    if "wrong_refusal" in out:
+        return _sv("evo_ape's processing refused although pose pairs remain: " + out["wrong_refusal"])
     if "not_refused" in out:
         return _sv("a projection was requested for trajectories that had been projected before; the projection step must "
                    "refuse, but evo_ape returned values (title %r) for pairs that are not the requested processing" % out["not_refused"])
@@ -434,6 +460,9 @@ def judge(case, val, out):
         return _sv("error array has %d values for %d remaining pose pairs" % (len(impl_err), len(se)))
     if out.get("timestamps_ok") is False:
         return _sv("timestamps array does not belong to the stored estimate")
+    if "pair_dt" in out and unhex(out["pair_dt"]) > case["opts"]["t_max_diff"] * (1 + 1e-6) + 1e-9:
+        return _sv("a stored reference/estimate pair is %.6g s apart after the requested time offset (t_max_diff = %r): the values "
+                   "are not those of the associated pose pairs" % (unhex(out["pair_dt"]), case["opts"]["t_max_diff"]))
     fac = UNIT_FACTOR.get(case["opts"]["unit"], 1.0) if rel in ("translation_part", "point_distance") else 1.0
     if case["opts"]["unit"] == "degrees" and rel == "rotation_angle_rad":
         impl_err = [math.radians(x) for x in impl_err]
